@@ -163,3 +163,12 @@ Example C04_unrecoverable_stripe_parity_error_not_reported_witness :
         <= length (filter (good_level (rx_vs 0) (map (prow rx_par3 0) (seq 0 2))) (seq 0 2))).
 Proof. exact rx_unrecoverable_stripe_no_parity_error. Qed.
 Print Assumptions C04_unrecoverable_stripe_parity_error_not_reported_witness.
+
+(* a file larger than recorded (excluded above by no_larger): check reports exactly one `Size error` for it (at its first open), no
+   located error, touches nothing, exits non-zero (computed on the model; the harness compares the model with the tool) *)
+Example C04_example_grown_file_check :
+  let fs := [Some [mkFF 1 2048 200 0 1 [11; 55]%N]; Some [mkFF 2 1024 100 0 2 [12]%N]] in
+  let out := check_run x_hashf x_padz x_truncf x_bs 2 false x_newino 999 x_check x_c x_par_ok fs [] (seq 0 1) in
+  r_tags (out_st out) = [(K_ERR_SIZE, [0; 0; 1]%N)] /\ out_fail out = true /\ r_err (out_st out) = 1 /\ r_fs (out_st out) = fs.
+Proof. exact rx_grown_file_check. Qed.
+Print Assumptions C04_example_grown_file_check.
